@@ -7,8 +7,10 @@
 (* and non-empty boxed slices).                                              *)
 (*                                                                          *)
 (* A slot owns a sequence of payload identities (one for a box, n for a      *)
-(* boxed slice).  pk says whether the payloads are heap-owning or            *)
-(* zero-sized-with-destructor.                                               *)
+(* boxed slice).  pk says whether the payloads are heap-owning ("heavy"),    *)
+(* zero-sized-with-destructor ("zst") or plain data without any drop glue    *)
+(* ("pod": its end of life is not observable as a destructor run, but the    *)
+(* block that held it must still be given back exactly once).                *)
 (***************************************************************************)
 EXTENDS Naturals, Sequences, FiniteSets
 
@@ -28,7 +30,7 @@ Init == bx = [s \in Slot |-> Free] /\ drops = [i \in Id |-> 0] /\ nextId = 1
 
 (* CBox::from(T) / from(Box<T>) / from((T, NoContext)) (boxed.rs:44-67); a typed object from a value *)
 New(s, kind, pk, n, via) ==
-  /\ bx[s].kind = "free" /\ kind \in {"cbox", "sbox", "obj"} /\ pk \in {"heavy", "zst"}
+  /\ bx[s].kind = "free" /\ kind \in {"cbox", "sbox", "obj"} /\ pk \in {"heavy", "zst", "pod"}
   /\ (kind # "sbox" => n = 1) /\ nextId + n - 1 <= MaxId
   /\ bx' = [bx EXCEPT ![s] = [kind |-> kind, form |-> "typed", pk |-> pk, ids |-> [k \in 1..n |-> nextId + k - 1]]]
   /\ nextId' = nextId + n
